@@ -716,6 +716,59 @@ def rule_act_size(rep, repo):
     rep.fail("R7", unit3, "score-raises", "raises %s" % e, loc=aq.loc(am))
 
 
+def rule_adjust_limit(rep, repo):
+  """R1 (limit completion): a short per-class limit list is completed from
+  the default limit role by role - kernel, bias, [recurrent kernel for
+  sequence layers,] activation - so the activation slot (the last one, which
+  _get_quantizer reads at index -1) gets the default ACTIVATION limit."""
+  aq = repo.module(AQ)
+  c = aq.classes["AutoQKHyperModel"]
+  unit = "%s::AutoQKHyperModel._adjust_limit" % aq.relpath
+  rep.unit(unit)
+  m = c.methods.get("_adjust_limit")
+  loc = aq.loc(m) if m is not None else None
+  seqs = aq.assigns.get("SEQUENCE_LAYERS")
+  cases = [
+      # default, given limits, expected after completion
+      (8, {"Dense": [4], "Conv2D": [4, 3], "LSTM": [4, 3, 2, 1]}, None),
+      ([8, 7, 5], {"Dense": [4], "Conv2D": [4, 3], "Dense2": None}, None),
+      ([8, 7, 16, 5], {"Dense": [4], "Conv2D": [4, 3], "LSTM": [4],
+                       "GRU": [4, 3, 2]}, None),
+  ]
+  for default, given, _ in cases:
+    limit = {k: list(v) for k, v in given.items() if v is not None}
+    limit["default"] = default
+    try:
+      _, _, o = hyper(repo, limit)
+    except AnalysisError as e:
+      rep.fail("R1", unit, "adjust-limit-raises", "default=%r limits=%r: %s"
+               % (default, given, e), loc=loc)
+      continue
+    got = o.attrs.get("limit", {})
+    dl = default if isinstance(default, list) else [default] * 3
+    for cls, lst in sorted(given.items()):
+      if lst is None:
+        continue
+      is_seq = cls in ("SimpleRNN", "LSTM", "GRU", "Bidirectional")
+      want = list(lst)
+      if is_seq:
+        if len(want) < 4:
+          if len(dl) == 4:
+            want = want + dl[len(want):]
+          else:
+            continue   # the constructor asserts a 4-element default
+      elif len(want) < 3:
+        roles = [dl[0], dl[1], dl[-1]]     # kernel, bias, activation
+        want = want + roles[len(want):]
+      cfg = "default=%r,%s=%r" % (default, cls, lst)
+      rep.check(got.get(cls) == want, "R1", unit, "limit-completion",
+                "%s: the completed limit is %r, expected %r (kernel, bias, "
+                "%sactivation from the default)" % (
+                    cfg, got.get(cls), want,
+                    "recurrent kernel, " if is_seq else ""), loc=loc,
+                instance=cfg)
+
+
 def run(rep, repo, tier):
   rep.trusted.append("keras-tuner's hp.Choice / hp.Fixed return one of the "
                      "offered values; re.match semantics")
@@ -723,6 +776,7 @@ def run(rep, repo, tier):
                          "can reach and architecture equality up to filter "
                          "scaling are not decided")
   rule_get_quantizer(rep, repo)
+  rule_adjust_limit(rep, repo)
   rule_quantize_model(rep, repo)
   rule_forgiving(rep, repo)
   rule_size(rep, repo)
